@@ -41,7 +41,7 @@ REQUIRED_REACH = ['Transformation.py:transformation', 'transformation_quad',
 
 ATTACH = ['surf-tr', 'trcl-num', 'trcl-inline12', 'trcl-inline3',
           'trcl-inline13', 'trcl-star', 'implicit', 'trcl-pair',
-          'trcl-filled']
+          'trcl-filled', 'trcl-inline-jumps']
 KINDS = [('p', 'general'), ('p', 'axis+'), ('px', 'any'), ('s', 'any'),
          ('c/z', 'any'), ('cx', 'any'), ('k/y', 'plus'), ('kz', 'minus'),
          ('kx', 'two'), ('k/x', 'minus'), ('tz', 'circular'),
@@ -81,6 +81,9 @@ def build(case):
     if attach == 'trcl-inline3':
         rot = 'translation'
     kind, fam = KINDS[(case.index * 5 + rng.randrange(len(KINDS))) % len(KINDS)]
+    if rot == 'near-flip' and case.index % 2 == 0:
+        kind, fam = rng.choice([('tz', 'circular'), ('ty', 'elliptic'),
+                                ('tx', 'circular'), ('tz', 'elliptic')])
     if rot.startswith('flip') and case.index % 3 == 1:
         # tori under half turns: the axis may end up antiparallel to z
         kind, fam = rng.choice([('tz', 'circular'), ('ty', 'elliptic'),
@@ -94,7 +97,8 @@ def build(case):
     if attach == 'trcl-pair':
         kind, fam = PAIR_KINDS[(case.index + rng.randrange(len(PAIR_KINDS)))
                                % len(PAIR_KINDS)]
-        if rot in ('identity', 'translation', 'near-axis', 'small-angle'):
+        if rot in ('identity', 'translation', 'near-axis', 'small-angle',
+                   'near-flip'):
             rot = 'generic'
     macro = kind in ref.MACROBODIES
     params = macrobody(rng, kind, fam) if macro else elementary(rng, kind, fam)
@@ -120,6 +124,15 @@ def build(case):
         deck.tags.add(f'trspell.{spelling}')
         for cel in probe_cells:
             cel.trcl = M.TrSpec(number=7)
+    elif attach == 'trcl-inline-jumps':
+        # inline matrix in abbreviated form: J placeholders and nJ shorthand
+        # between the parentheses
+        form = rng.choice(['inline-6j-rows', 'inline-6j-cols', 'inline-5j',
+                           'inline-6j-rows', 'inline-9'])
+        if rot != 'generic' and form == 'inline-5j':
+            form = 'inline-6j-rows'
+        for cel in probe_cells:
+            cel.trcl = tr_spec(rng, motion, form)
     elif attach in ('trcl-inline12', 'trcl-inline3', 'trcl-inline13',
                     'trcl-star'):
         form = attach.split('-')[1]
@@ -175,11 +188,36 @@ def build(case):
         deck.tags.add(f'trspell.{spelling}')
         deck.cells[0].trcl = M.TrSpec(number=7)
         deck.cells[1].geom = M.AND(M.S(-1001), M.S(-WORLD_SURF))
-        extra = M.Cell(3, mat=3, rho='-3.5',
-                       geom=M.AND(M.S(1001), M.S(-WORLD_SURF)),
-                       imp={'n': '1'})
-        deck.cells.insert(2, extra)
-        deck.mats.append(M.Material(3, [('13027', '1')]))
+        if rng.random() < 0.5:
+            extra = M.Cell(3, mat=3, rho='-3.5',
+                           geom=M.AND(M.S(1001), M.S(-WORLD_SURF)),
+                           imp={'n': '1'})
+            deck.cells.insert(2, extra)
+            deck.mats.append(M.Material(3, [('13027', '1')]))
+        else:
+            # the moved surface is referred to with negative sense only
+            deck.tags.add('implicit.negative-only')
+        if rng.random() < 0.7:
+            # the outer sphere does not carry the largest number below 1000
+            # (the surfaces the converter generates are numbered from the
+            # largest user number on: with 999 they start at 1001, the very
+            # number the implicit reference uses)
+            new_world = rng.choice([9, 50, 300, 998])
+            for sur in deck.surfs:
+                if sur.id == WORLD_SURF:
+                    sur.id = new_world
+
+            def swap(expr):
+                if expr[0] == 's':
+                    return ('s', new_world if expr[1] == WORLD_SURF
+                            else expr[1], expr[2], expr[3])
+                if expr[0] == '^':
+                    return expr
+                if expr[0] in ('#', 'g'):
+                    return (expr[0], swap(expr[1]))
+                return (expr[0],) + tuple(swap(sub) for sub in expr[1:])
+            for cel in deck.cells:
+                cel.geom = swap(cel.geom)
     deck.trs = trs
     deck.tags.update({f'attach.{attach}', f'rot.{rot}', f'kind.{kind}',
                       f'{kind}.{fam}'})
